@@ -56,6 +56,59 @@ func (c *vCase) exists(id string, want bool) {
 	}
 }
 
+// searchNone: a Search without any filter value. Whatever it answers (the code refuses it), a stream it returns must be
+// closed, and the vault must go on answering: the next operation (an Exists, given three seconds) must terminate.
+func (c *vCase) searchNone() {
+	if c.stuck || c.gaveUp("Search (no filter)") {
+		return
+	}
+	var ch chan storage.Stream[storage.ListResult]
+	var err error
+	decided := c.guarded(func() { ch, err = c.be.v.Search(vCtx, storage.Filters{}) })
+	c.count("searches_without_filter")
+	if !decided {
+		return
+	}
+	if err == nil && ch != nil {
+		tm := time.NewTimer(3 * time.Second)
+		defer tm.Stop()
+	loop:
+		for {
+			select {
+			case _, ok := <-ch:
+				if !ok {
+					break loop
+				}
+			case <-tm.C:
+				c.bad("C15", "Search without a filter: result stream is never closed", "")
+				c.stuck = true
+				return
+			}
+		}
+	}
+	done := make(chan error, 1)
+	ctx, cancel := context.WithTimeout(vCtx, 3*time.Second)
+	defer cancel()
+	probe := uuid.New()
+	if len(c.ids) > 0 {
+		probe = c.w.planID(c.ids[0])
+	}
+	go func() {
+		_, e := c.be.v.Exists(ctx, probe)
+		done <- e
+	}()
+	select {
+	case e := <-done:
+		if e != nil && ctx.Err() != nil {
+			c.bad("C15", "the vault stops answering after a Search without a filter", "Exists: "+e.Error())
+			c.stuck = true
+		}
+	case <-time.After(5 * time.Second):
+		c.bad("C15", "the vault stops answering after a Search without a filter", "Exists did not return")
+		c.stuck = true
+	}
+}
+
 func (c *vCase) names(ids []uuid.UUID) []string {
 	rev := map[uuid.UUID]string{}
 	for _, id := range c.ids {
@@ -281,6 +334,36 @@ func vFilterShape(f vFilter) string {
 		p = append(p, fmt.Sprintf("%d statuses", len(f.S)))
 	}
 	return strings.Join(p, ", ")
+}
+
+// listedIDs: the model ids List(0) returns.
+func (c *vCase) listedIDs() (map[string]bool, bool) {
+	var ch chan storage.Stream[storage.ListResult]
+	var err error
+	if !c.guarded(func() { ch, err = c.be.v.List(vCtx, 0) }) || err != nil || ch == nil {
+		return nil, false
+	}
+	out := map[string]bool{}
+	rev := map[uuid.UUID]string{}
+	for _, id := range c.ids {
+		rev[c.w.planID(id)] = id
+	}
+	tm := time.NewTimer(3 * time.Second)
+	defer tm.Stop()
+	for {
+		select {
+		case r, ok := <-ch:
+			if !ok {
+				return out, true
+			}
+			if r.Err != nil {
+				return nil, false
+			}
+			out[rev[r.Result.ID]] = true
+		case <-tm.C:
+			return nil, false
+		}
+	}
 }
 
 func (c *vCase) list(st *vStep, n int, want []string) {
